@@ -32,6 +32,10 @@ def mutants():
         patch = os.path.join(d, 'patch.diff')
         if os.path.exists(meta) and os.path.exists(patch):
             m = json.load(open(meta))
+            if m.get('out_of_scope'):
+                # judged outside the property it was written against
+                # (DESIGN.md 8.2): kept for the record, not expected to fail
+                continue
             props = m.get('detected_by') or [m['property']]
             out.append(('seeded/' + os.path.basename(d), props, patch))
     return out
